@@ -19,6 +19,7 @@ import re
 
 import z3
 
+from pyvc import ext_C01 as IOX
 from pyvc import models as M
 from pyvc.engine import ProgExc, Unsupported
 from pyvc.models import FmtPiece, SymStr
@@ -299,48 +300,173 @@ def ghost_axioms(E, f, n_extra, names):
                       "row_line/comment_line(f, j) = index of the j-th such line")
 
 
-def source_id(reader):
-    """the abstract file behind a FileReader object"""
-    for fld in ("f", "fb", "fname"):
-        v = reader.fields.get(fld)
-        if isinstance(v, (Opaque, Sym)):
-            return v.z
-    raise Unsupported("FileReader without an abstract source")
+# ===========================================================================
+# FileReader.__init__ / __enter__ : which handle is opened / wrapped for which source kind, with which encoding
+def make_source(kind, encoding="utf-8"):
+    """the three source kinds of `PathOrIO` as abstract sources (pyvc/ext_C01.py, io section)"""
+    if kind == "text-stream":
+        return IOX.text_stream("swc_file", encoding)
+    if kind == "byte-stream":
+        return IOX.byte_stream("swc_file")
+    return IOX.path_source("swc_file")
 
 
-def lines_of(S, fr):
-    """assumed contract of FileReader.__enter__: a text handle iterating the lines of the source; reading line k
-    raises UnicodeDecodeError when the bytes do not decode"""
-    f = source_id(fr.vars["self"])
+def register_reader(R):
+    from swcgeom.utils.file import FileReader
 
-    def it(eng, recv):
-        def getter(k):
-            if eng.branch(eng.sbool(DECERR(f, k.z))):
-                raise ProgExc(UnicodeDecodeError, "codec can't decode")
-            return AStr(LINE(f, k.z))
+    KINDS = ("text-stream", "byte-stream", "path")
 
-        eng.assume(NL(f) >= 0)
-        eng.assumptions.add("io-model: iterating the text handle delivers line(f, 0..n_lines(f)-1) in order; delivering line k may instead raise UnicodeDecodeError (decode_error_at(f, k))")
-        return NL(f), getter
+    def init_setup(kind, encoding, **kw):
+        def f(S):
+            IOX.install_io(AStr)
+            src = make_source(kind, "latin-1")  # a text stream brings its own encoding, different from every variant's argument
+            d = dict(self=S.obj(FileReader), fname=src, encoding=encoding, kwargs=PDict(dict(kw)), g_kind=kind, g_kw=dict(kw))
+            if encoding == "detect":
+                d["low_confidence"] = S.real("low_confidence")
+            return d
 
-    h = S.opaque({"__iter_seq__": it}, name="text_handle")
-    h.src = f
-    return h
+        return f
+
+    def init_fields(E, v, o):
+        """the source is kept in exactly one of f / fb / fname, by kind; the other two stay None / None / ''"""
+        fl, src, kind = v["self"].fields, o["fname"], o["g_kind"]
+        want = dict(f=src if kind == "text-stream" else None, fb=src if kind == "byte-stream" else None, fname=src if kind == "path" else "")
+        return all((fl.get(k) is w) if isinstance(w, Opaque) else (k in fl and fl[k] == w and not isinstance(fl[k], Opaque)) for k, w in want.items())
+
+    def init_encoding(E, v, o):
+        """a text stream decodes itself: its own encoding is recorded whatever was asked for (detection skipped); otherwise the
+        encoding asked for, or -- for 'detect' -- what chardet names for the source's bytes, utf-8 when it names none"""
+        enc, src, kind = v["self"].fields.get("encoding"), o["fname"], o["g_kind"]
+        if kind == "text-stream":
+            return enc == "latin-1"
+        if o["encoding"] != "detect":
+            return enc == o["encoding"]
+        det = IOX.events(E, "detect")
+        if len(det) != 1 or not det[0]["data"].z.eq(IOX.BYTES_OF(src.z)):
+            return False  # chardet is asked once, about the bytes of THIS source
+        return (enc is det[0]["encoding"]) if det[0]["encoding"] is not None else enc == "utf-8"
+
+    def init_io(E, v, o):
+        """construction touches the source only to detect the encoding: a byte stream is read once and REWOUND, a path is opened
+        'rb' once, read and closed again; nothing is opened for text reading, wrapped or left open"""
+        ev, src, kind = IOX.events(E), o["fname"], o["g_kind"]
+        ops = [e["op"] for e in ev]
+        if kind == "text-stream" or o["encoding"] != "detect":
+            return ops == []
+        if kind == "byte-stream":
+            return ops == ["read", "seek", "detect"] and ev[0]["handle"] is src and ev[1]["handle"] is src and IOX.position(E, src) == 0
+        h = ev[0]["handle"] if ev else None
+        return (ops == ["open", "read", "close", "detect"] and ev[0]["name"] is src and ev[0]["mode"] == "rb" and ev[0]["kwargs"] == {}
+                and ev[1]["handle"] is h and ev[2]["handle"] is h)
+
+    def init_kwargs(E, v, o):
+        kw = v["self"].fields.get("kwargs")
+        return isinstance(kw, PDict) and kw.items == o["g_kw"]
+
+    def init_may_raise(E, v, o):
+        return z3.And(z3.BoolVal(v["g_kind"] == "path" and v["encoding"] == "detect"), IOX.UNREADABLE(v["fname"].z))
+
+    R.add(
+        f"{FILE}:FileReader.__init__",
+        prop="C02",
+        variants={f"{k},encoding={e}": init_setup(k, e, **({"errors": "strict"} if (k, e) == ("path", "utf-8") else {}))
+                  for k in KINDS for e in ("utf-8", "gbk", "detect")},
+        raises={"OSError": ("only-when-detecting-the-encoding-of-an-unreadable-path", init_may_raise)},
+        ensures=[
+            ("source-kept-in-exactly-one-of-f-fb-fname-by-kind", init_fields),
+            ("encoding:own-for-a-text-stream-else-as-asked-else-detected-or-utf-8", init_encoding),
+            ("source-touched-only-for-detection:byte-stream-read-once-and-rewound,path-opened-rb-once-and-closed", init_io),
+            ("extra-keyword-arguments-stored-for-open", init_kwargs),
+        ],
+        notes="source abstract (pyvc/ext_C01.py io section); 3 source kinds x (utf-8 | another codec | detect); detect_encoding is INLINED (real code), "
+              "chardet.detect / open / BytesIO.read / seek are assumed models",
+    )
+
+    # ---------------------------------------------------------------- __enter__
+    def enter_setup(kind, state="fresh", **kw):
+        def f(S):
+            IOX.install_io(AStr)
+            src = make_source(kind)
+            enc = S.opaque({"__isinstance__": (str,)}, "encoding")  # any encoding name
+            fl = dict(fname=src if kind == "path" else "", fb=src if kind == "byte-stream" else None, f=src if kind == "text-stream" else None,
+                      encoding=enc, kwargs=PDict(dict(kw)))
+            if state == "entered-before":  # a reader whose __enter__ ran already: self.f holds that handle
+                fl["f"] = IOX.text_handle(src.z, "earlier_handle")
+            return dict(self=S.obj(FileReader, **fl), g_kind=kind, g_src=src, g_kw=dict(kw), g_state=state, g_enc=enc, g_f0=fl["f"])
+
+        return f
+
+    def enter_stored(E, v, o):
+        return v["result"] is not None and v["result"] is v["self"].fields.get("f")
+
+    def enter_handle(E, v, o):
+        """text stream: the stream itself; byte stream: ONE TextIOWrapper over self.fb with self.encoding; path: ONE open(self.fname,
+        'r', encoding=self.encoding, **self.kwargs); nothing else is opened, wrapped, read or closed.  (A byte-stream reader wraps
+        again on re-entry, a path reader re-uses the handle it has.)"""
+        ev, kind, src, r = IOX.events(E), o["g_kind"], o["g_src"], v["result"]
+        ops = [e["op"] for e in ev]
+        if kind == "text-stream" or (kind == "path" and o["g_state"] == "entered-before"):
+            return ops == [] and r is o["g_f0"]
+        if kind == "byte-stream":
+            return (ops == ["wrap"] and ev[0]["handle"] is r and ev[0]["buffer"] is src and ev[0]["encoding"] is o["g_enc"] and ev[0]["kwargs"] == {})
+        return (ops == ["open"] and ev[0]["handle"] is r and ev[0]["name"] is src and ev[0]["mode"] == "r" and ev[0]["encoding"] is o["g_enc"]
+                and ev[0]["kwargs"] == o["g_kw"])
+
+    def enter_lines(E, v, o):
+        """the handle returned delivers the lines of the reader's source"""
+        r = v["result"]
+        return isinstance(r, Opaque) and getattr(r, "src", None) is not None and r.src.eq(o["g_src"].z)
+
+    def enter_fields_kept(E, v, o):
+        fl, kind, src = v["self"].fields, o["g_kind"], o["g_src"]
+        return ((fl.get("fname") is src if kind == "path" else fl.get("fname") == "") and (fl.get("fb") is src if kind == "byte-stream" else fl.get("fb") is None)
+                and fl.get("encoding") is o["g_enc"] and isinstance(fl.get("kwargs"), PDict) and fl["kwargs"].items == o["g_kw"])
+
+    def enter_may_raise(E, v, o):
+        return z3.And(z3.BoolVal(v["g_kind"] == "path" and v["g_state"] == "fresh"), IOX.UNREADABLE(v["g_src"].z))
+
+    R.add(
+        f"{FILE}:FileReader.__enter__",
+        prop="C02",
+        variants={
+            "text-stream": enter_setup("text-stream"),
+            "byte-stream": enter_setup("byte-stream"),
+            "byte-stream,entered-before": enter_setup("byte-stream", "entered-before"),
+            "path": enter_setup("path"),
+            "path,extra-open-arguments": enter_setup("path", errors="replace", newline=""),
+            "path,entered-before": enter_setup("path", "entered-before"),
+        },
+        requires=[("byte-stream-at-its-start(a-fresh-stream,or-rewound-by-__init__)", lambda E, v, o: IOX.position(E, v["g_src"]) == 0 if v["g_kind"] == "byte-stream" else True)],
+        raises={"OSError": ("only-for-an-unreadable-path", enter_may_raise)},
+        ensures=[
+            ("returns-the-handle-it-stores-in-self.f", enter_stored),
+            ("handle:the-text-stream-itself|one-TextIOWrapper-over-the-byte-stream|one-open-of-the-path-for-reading,with-the-reader's-encoding-and-nothing-else", enter_handle),
+            ("the-handle-delivers-the-lines-of-the-reader's-source", enter_lines),
+            ("source-encoding-and-open-arguments-not-changed", enter_fields_kept),
+        ],
+        notes="NOT trusted any more: verified against the assumed models of open / io.TextIOWrapper (pyvc/ext_C01.py); inlined at its call site in parse_swc",
+    )
 
 
 def register(R: Registry):
-    def reader(S, with_handle=True):
-        from swcgeom.utils.file import FileReader
+    from swcgeom.utils.file import FileReader
 
+    IOX.install_io(AStr)
+
+    def reader(S, with_handle=True):
         return S.obj(FileReader, fname="", fb=None, f=file_handle(S) if with_handle else None, encoding="utf-8", kwargs={})
 
     def handle_closed(E, v, o):
         f = o["self"].fields["f"]
-        if f is None:
-            return True
         if not (E.cur_key or "").endswith(":FileReader.__exit__"):
             return CLOSED(f.z) if isinstance(f, Opaque) else True  # at a call site: an (unused) fact about a ghost predicate
-        return any(z.eq(f.z) for z in E.ghost.get("closed", []))
+        return f is None or any(z.eq(f.z) for z in E.ghost.get("closed", []))
+
+    def nothing_else_closed(E, v, o):
+        f, closed = o["self"].fields["f"], E.ghost.get("closed", [])
+        if not (E.cur_key or "").endswith(":FileReader.__exit__"):
+            return True
+        return (not closed) if f is None else (len(closed) == 1 and closed[0].eq(f.z))
 
     R.add(
         f"{FILE}:FileReader.__exit__",
@@ -356,12 +482,11 @@ def register(R: Registry):
             # Python's `with` rule: a true result swallows the exception raised in the body.
             "does-not-suppress :: implies(not is_none(exc_type), not result)",
             ("closes-the-handle", handle_closed),
+            ("closes-it-once-and-closes-nothing-else(a-reader-that-was-never-entered-closes-nothing)", nothing_else_closed),
         ],
     )
 
-    R.add(f"{FILE}:FileReader.__enter__", prop="C02", trusted=True, returns=lines_of, ensures=[],
-          notes="ASSUMED: the handle iterates the abstract line sequence of the reader's source (open / TextIOWrapper not modelled)")
-
+    register_reader(R)
     register_parse(R)
 
 
@@ -376,25 +501,17 @@ def register_parse(R):
 
     names = get_names()
 
-    def source(S, kind):
-        from io import BytesIO, TextIOBase
-
-        proto = {}
-        if kind == "text-stream":
-            proto = {"__isinstance__": (TextIOBase,), ".encoding": lambda eng, v: "utf-8"}
-        elif kind == "byte-stream":
-            proto = {"__isinstance__": (BytesIO,)}
-        return S.opaque(proto, "swc_file")
-
-    def parse_setup(extra, kind):
+    def parse_setup(extra, kind, encoding="utf-8"):
         def f(S):
             import swcgeom.core.swc_utils.io as io_mod
+
+            IOX.install_io(AStr)
 
             for g in list(vars(io_mod).values()):  # module-level compiled patterns (RE_COMMENT)
                 if isinstance(g, re.Pattern):
                     _register_pattern(g)
-            src = source(S, kind)
-            return dict(fname=src, names=names, extra_cols=PList(list(extra)) if extra else None, encoding="utf-8", g_extra=list(extra or []))
+            src = make_source(kind)
+            return dict(fname=src, names=names, extra_cols=PList(list(extra)) if extra else None, encoding=encoding, g_extra=list(extra or []), g_kind=kind)
 
         return f
 
@@ -479,6 +596,25 @@ def register_parse(R):
         j = z3.Int(fresh_name("j"))
         return z3.Exists([j], z3.And(j >= 0, j < NL(f), z3.Not(line_ok(ne, f, j))))
 
+    def post_io(E, v, o):
+        """the source is opened for text reading exactly once, the way its kind demands, with the requested encoding (for 'detect':
+        what chardet named, else utf-8), and the handle the reader opened is closed again when parse_swc returns"""
+        if "g_kind" not in v:
+            return True  # at a call site nothing is known about the source kind
+        kind, src = v["g_kind"], v["fname"]
+        ev = [e for e in IOX.events(E) if e["op"] in ("open", "wrap") and e.get("mode", "r") != "rb"]
+        if kind == "text-stream":
+            return ev == []
+        if len(ev) != 1 or ev[0]["op"] != ("wrap" if kind == "byte-stream" else "open") or ev[0].get("buffer", ev[0].get("name")) is not src or ev[0]["kwargs"] != {}:
+            return False
+        enc = ev[0]["encoding"]
+        if o["encoding"] != "detect":
+            ok = enc == o["encoding"]
+        else:
+            det = IOX.events(E, "detect")
+            ok = len(det) == 1 and ((enc is det[0]["encoding"]) if det[0]["encoding"] is not None else enc == "utf-8")
+        return z3.And(z3.BoolVal(bool(ok)), CLOSED(ev[0]["handle"].z))
+
     def parse_result(S, fr):
         extra = fr.vars.get("extra_cols")
         extra = list(extra.items) if isinstance(extra, PList) and extra.items else []
@@ -507,15 +643,19 @@ def register_parse(R):
             "path+one-extra-column": parse_setup(["e"], "path"),
             "byte-stream": parse_setup(None, "byte-stream"),
             "text-stream": parse_setup(None, "text-stream"),
+            "byte-stream,encoding=detect": parse_setup(None, "byte-stream", "detect"),
+            "path,encoding=detect": parse_setup(None, "path", "detect"),
         },
         lemmas=[axioms],
         returns=parse_result,
-        raises={"ValueError": ("only-when-some-line-is-bad-or-undecodable", wrap(may_raise))},
+        raises={"ValueError": ("only-when-some-line-is-bad-or-undecodable", wrap(may_raise)),
+                "OSError": ("only-when-the-source-is-unreadable(open-fails)", lambda E, v, o: IOX.UNREADABLE(v["fname"].z))},
         ensures=[
             ("one-table-entry-per-row-line", wrap(post_count)),
             ("every-field-is-the-conversion-of-its-group-in-file-order", wrap(post_fields)),
             ("comments-are-the-comment-lines-minus-the-column-header-in-order", wrap(post_comments)),
             ("every-line-was-read-and-is-a-row-a-comment-or-blank", wrap(post_consumed)),
+            ("source-opened-once-for-its-kind-with-the-requested-encoding-and-closed-on-return", post_io),
         ],
         loops={0: dict(
             invariant=[("columns-equally-filled-one-entry-per-row-line-so-far", inv_equal),
